@@ -468,6 +468,47 @@ def custom_isolation_table(ctx, rule):
                        f'gives {fresh.brief(160)}: what a custom selector expands to depends on maps that were compiled earlier')
 
 
+HISTORY_POOL = [':nth-child(-n+3)', ':nth-child(-2n+3)', ':nth-child(n-1)', ':nth-child(n-2)', ':nth-child(-1)', ':nth-child(-2)', ':nth-last-child(-n+3)',
+                ':nth-of-type(-n+3)', 'a', 'A', 'b', 'a.b', 'a .b', 'a > .b', 'a ~ .b', '[a=b]', '[a="b" i]', '[a^=b]', ':is(a)', ':where(a)', ':not(a)',
+                ':has(a)', ':has(> a)', 'a, b', 'b, a', ':nth-child(1)', ':nth-child(0n+1)', ':first-child', ':nth-last-child(1)', ':last-child', ':nth-of-type(1)',
+                ':nth-child(1 of a)', ':nth-child(1 of b)', '*', '*|*', '|a', '*|a', 'x|a', ':root', ':empty', ':scope', '&', ':lang(en)', ':lang(de)',
+                ':-soup-contains(a)', ':-soup-contains-own(a)', ':-soup-contains("a", "b")', ':dir(ltr)', ':dir(rtl)', ':checked', ':default', '#a', '.a', '#a.a',
+                ':not(:nth-child(-n+3))', ':not(:nth-child(-2n+3))', ':is(a, b):not(.c)', ':is(a, b):not(.d)', '', ' ', 'a,', ':nth-child(0)', ':nth-child(-0)']
+
+
+def compile_history_table(ctx, rule):
+    """Compiling is a function of the text: every pattern of a pool compiles to the same structure (or raises the same error)
+    whatever patterns were compiled before it in the same process - the module-level state of the interpreted package (tables,
+    interned objects, counters) is carried from one compile to the next, in pool order, in reverse order and interleaved."""
+    fresh = {t: compile_text(ctx, t, persist={}) for t in HISTORY_POOL}
+    orders = {'pool order': list(HISTORY_POOL), 'reverse order': list(reversed(HISTORY_POOL)),
+              'interleaved': HISTORY_POOL[::2] + HISTORY_POOL[1::2], 'each twice': [t for t in HISTORY_POOL for _ in (0, 1)]}
+    bad = None
+    for oname, seq in orders.items():
+        state = {}
+        before = []
+        for t in seq:
+            got = compile_text(ctx, t, persist=state)
+            ok = got == fresh[t]
+            rule.instance({'history': oname, 'pattern': t, 'position': len(before), 'as_fresh': ok}, key=f'history|{oname}|{len(before)}|{t}', sample_cap=4)
+            if not ok and bad is None:
+                culprit = None
+                for prev in dict.fromkeys(before):          # the single earlier pattern that is enough to change the outcome, if there is one
+                    st2 = {}
+                    compile_text(ctx, prev, persist=st2)
+                    if compile_text(ctx, t, persist=st2) != fresh[t]:
+                        culprit = prev
+                        break
+                bad = (oname, t, got, fresh[t], culprit, len(before))
+            before.append(t)
+    rule.obligation(bad is None)
+    if bad is not None:
+        oname, t, got, want, culprit, pos = bad
+        rule.violation(f'compile history `{t}`', 'soupsieve/css_parser.py / css_types.py (state kept between compiles)',
+                       f'{t!r} compiled after ' + (f'{culprit!r}' if culprit is not None else f'{pos} other patterns ({oname})') + f' gives {got.brief(200)}; '
+                       f'compiled first in a fresh process it gives {want.brief(200)}: what compile() returns depends on the calls that preceded it')
+
+
 def _work(ctx, text, custom=None, cap=3_000_000):
     """(evaluator steps + regex matcher steps) needed to compile `text`, or None if a budget ran out."""
     from .. import rematch
